@@ -158,17 +158,9 @@ def check(case, ev):
     fr = [bool(x) for x in pc.as_list(fr_v, "reducable_rows_and_columns()[0]", (sy.nrows,))]
     fc = pc.forced_list(pc.as_list(fc_v, "reducable_rows_and_columns()[1]", (sy.ncols,)))
 
-    # A_min / A_max: "minimum / maximum coefficient value based on variable's initial bounds" (docstrings)
-    amin = pc.as_list(call(lambda: poly.A_min, what="A_min"), "A_min", (sy.nrows, sy.ncols))
-    amax = pc.as_list(call(lambda: poly.A_max, what="A_max"), "A_max", (sy.nrows, sy.ncols))
-    for i, (_, a) in enumerate(sy.rows):
-        for j, c in enumerate(a):
-            lo, hi = sy.bounds[j]
-            exp = (min(c * lo, c * hi), max(c * lo, c * hi))
-            if (amin[i][j], amax[i][j]) != exp:
-                raise Violation(f"A_min/A_max entry ({i},{j}) = {(amin[i][j], amax[i][j])} but coefficient {c} over bounds "
-                                f"{(lo, hi)} ranges over {exp}")
-
+    # NOTE: A_min / A_max are deliberately NOT compared with exact per-entry minima/maxima. The property speaks about what
+    # is reported as reducible / forced, not about these helpers: a weaker but sound A_min (fewer rows flagged) must stay
+    # quiet, and an unsound one shows up in the row / column / projection clauses below.
     S, sols, cand = None, [], []
     if mode == "P":
         cand = [p for p in case.get("points", []) if len(p) == sy.ncols]
